@@ -44,17 +44,18 @@ class C15(Check):
             for method, levels in ((0, [255]), (8, [255, 1, 9]), (12, [255, 1]), (93, [255, 19])):
                 for c in (contents if self.tier == "thorough" else r.sample(contents, 3)):
                     lv = r.choice(levels)
-                    wl.append("zcwrite %s %d %d %s %s" % (hexs(pw), method, lv, hexs(c), hexs(b"secret.bin")))
-                    wm.append((pw, method, c))
+                    nm = r.choice([b"secret.bin", "s\u00e9cret.bin".encode(), "\u65e5\u672c.txt".encode(), b"dir/sub\\x", b"a"])
+                    wl.append("zcwrite %s %d %d %s %s" % (hexs(pw), method, lv, hexs(c), hexs(nm)))
+                    wm.append((pw, method, c, nm))
         outs = run_lines(self.exes["debug"], wl)
         self.written = []
-        for (pw, method, c), o, l in zip(wm, outs, wl):
+        for (pw, method, c, nm), o, l in zip(wm, outs, wl):
             m = re.match(r"\[Ok x([0-9a-f]*)\]", o or "")
             if not m:
                 cases.append((l, dict(k="write", expect="fail", impl_only=True, note=o)))
                 continue
             data = bytes.fromhex(m.group(1))
-            cases.append((l, dict(k="write", pw=pw.hex(), method=method, content=c.hex(), impl_only=True)))
+            cases.append((l, dict(k="write", pw=pw.hex(), method=method, content=c.hex(), name=nm.hex(), impl_only=True)))
             for idx, exp in ((1, c),):
                 cases.append(("entry %s %d 1 %s %d" % (hexs(data), idx, hexs(pw), r.choice([1, 7, 4096])),
                               dict(k="read", expect="content", content=c.hex())))
@@ -111,7 +112,7 @@ class C15(Check):
                 return "writer refused a valid encrypted entry: %s" % meta.get("note")
             data = bytes.fromhex(re.match(r"\[Ok x([0-9a-f]*)\]", out).group(1))
             pw, c = bytes.fromhex(meta["pw"]), bytes.fromhex(meta["content"])
-            loc = find_local(data, b"secret.bin")
+            loc = find_local(data, bytes.fromhex(meta["name"]))
             if loc is None:
                 return "entry not found in the written archive"
             flags, method, crc, cs, us, payload, t = loc
